@@ -153,7 +153,8 @@ func (p *Program) absentByDelete(l *mapLookup, at ssa.Instruction, lockPath stri
 			}
 		}
 	}
-	if reachAvoidingF(l.at, false, skip, isAt, isDel) != nil {
+	_ = isAt
+	if reachThreaded(l.at, at, skip, isDel) {
 		return false
 	}
 	return !p.lockReleasedBetween(l.at, at, lockPath)
